@@ -184,7 +184,7 @@ func (c RgGetresultsId) Build() Completed {
 type RgGetresultsblocking Incomplete
 
 func (b Builder) RgGetresultsblocking() (c RgGetresultsblocking) {
-	c = RgGetresultsblocking{cs: get(), ks: b.ks}
+	c = RgGetresultsblocking{cs: get(), ks: b.ks, cf: int16(blockTag)}
 	c.cs.s = append(c.cs.s, "RG.GETRESULTSBLOCKING")
 	return c
 }
